@@ -34,6 +34,13 @@ def gate_library(rng=None):
            cirq.ParallelGate(cirq.X ** 0.3, 2), cirq.MSGate(rads=0.4), cirq.DensePauliString("XYZ", coefficient=1j), cirq.PauliStringPhasorGate(cirq.DensePauliString("XZ"), exponent_neg=0.3),
            cirq.ZPowGate(exponent=0.4, dimension=3), cirq.XPowGate(exponent=1, dimension=3), cirq.GlobalPhaseGate(1j),
            cirq.BooleanHamiltonianGate(["a", "b"], ["a ^ b"], 0.3), cirq.UniformSuperpositionGate(3, 2)]
+    # controlled gates whose sub-gate carries a global shift: the shift becomes a relative phase; exponent*shift at and around integers
+    for cls in (cirq.XPowGate, cirq.YPowGate, cirq.ZPowGate):
+        for e, s in ((1, 1), (1, -1), (2, 0.5), (2, -0.5), (3, 1 / 3), (1, 2), (0.5, 2), (1, 0.5), (0.3, -0.5), (1, 0.25)):
+            gl.append(cirq.ControlledGate(cls(exponent=e, global_shift=s)))
+    gl += [cirq.ControlledGate(cirq.rx(2 * np.pi)), cirq.ControlledGate(cirq.ry(-2 * np.pi)), cirq.ControlledGate(cirq.rz(6 * np.pi)), cirq.ControlledGate(cirq.rz(np.pi)),
+           cirq.ControlledGate(cirq.CZPowGate(exponent=1, global_shift=1)), cirq.ControlledGate(cirq.CZPowGate(exponent=2, global_shift=-0.5)),
+           cirq.ControlledGate(cirq.rx(2 * np.pi), num_controls=2), cirq.ControlledGate(cirq.XPowGate(exponent=1, global_shift=1), control_values=[0])]
     return gl
 
 
